@@ -321,6 +321,56 @@ def check_forelse(ctx, rp, q):
     return n
 
 
+def check_stack_default(ctx, rp, q, rule='R-STACKDEFAULT'):
+    """the default stack dimension: the unlimited (record) dimension of the first file; a dimension with a time-like name only when no
+    dimension is unlimited.  Decided on the shape of the search: the choice made from isunlimited() is not replaced by a later choice
+    (the later choice sits in the else clause of the first search, or under a test that nothing was chosen yet), and an earlier choice
+    does not keep the unlimited search from running."""
+    fn = ctx.src.mod(rp).func(q)
+    where = 'src/PseudoNetCDF/%s %s' % (rp, q)
+    params = [a.arg for a in fn.args.args + fn.args.kwonlyargs]
+    if 'stackdim' not in params:
+        return 0
+    ctx.rule(rule, 'default stack dimension: the unlimited dimension wins; a time-like name is only the fallback when no dimension is unlimited')
+    assigns = [st for st in iter_stmts(fn.body) if isinstance(st, ast.Assign) and any(isinstance(t, ast.Name) and t.id == 'stackdim' for t in st.targets)]
+
+    def chain(st):
+        out, p = [], getattr(st, '_parent', None)
+        child = st
+        while p is not None and p is not fn:
+            out.append((p, child))
+            child, p = p, getattr(p, '_parent', None)
+        return out
+    byunlim = [st for st in assigns if any(isinstance(p_, ast.If) and 'isunlimited' in norm(p_.test) for p_, c_ in chain(st))]
+    others = [st for st in assigns if st not in byunlim]
+    if not byunlim:
+        if assigns:
+            ctx.violation(Finding(rule, rp, q, assigns[0], 'the default stack dimension is never chosen from isunlimited(): files are stacked along a name, not along their record dimension'))
+        else:
+            ctx.undec(rule, q, where, 'no default choice of stackdim')
+        return 1
+    a1 = byunlim[0]
+    loop1 = [p_ for p_, c_ in chain(a1) if isinstance(p_, (ast.For, ast.While))]
+    bad = None
+    for a2 in others:
+        ch = chain(a2)
+        none_guard = any(isinstance(p_, ast.If) and norm(p_.test) in ('stackdim is None', 'not stackdim') and any(c_ is b for b in p_.body) and p_.lineno > a1.lineno for p_, c_ in ch)
+        in_else = bool(loop1) and any(p_ is loop1[0] and any(c_ is b for b in p_.orelse) for p_, c_ in ch)
+        if a2.lineno > a1.lineno:
+            if not (none_guard or in_else):
+                bad = (a2, 'this later choice (%s) also runs when an unlimited dimension was found and replaces it' % norm(a2))
+        else:
+            g1 = any(isinstance(p_, ast.If) and norm(p_.test) in ('stackdim is None', 'not stackdim') and p_.lineno > a2.lineno for p_, c_ in chain(a1))
+            e1 = any(isinstance(p_, (ast.For, ast.While)) and any(c_ is b for b in p_.orelse) for p_, c_ in chain(a1))
+            if g1 or e1:
+                bad = (a1, 'the unlimited dimension is looked for only when the earlier choice (%s) found nothing' % norm(a2))
+    if bad:
+        ctx.violation(Finding(rule, rp, q, bad[0], bad[1] + ': files whose record dimension is not the time-named one are stacked along the wrong dimension'))
+    else:
+        ctx.ok(rule, q, where, 'choice by isunlimited() first; %d name-based choice(s) only as fallback' % len(others))
+    return 1
+
+
 def check_delegate(ctx, rp, q):
     fn = ctx.src.mod(rp).func(q)
     where = 'src/PseudoNetCDF/%s %s' % (rp, q)
@@ -417,14 +467,16 @@ def run(ctx):
         else:
             raise AnalysisError('construct not understood: dimension handling of %s' % q)
     check_copydimension(ctx)
-    n = 0
+    n = nsd = 0
     for rp, q in (('core/_files.py', 'PseudoNetCDFFile.open_mfdataset'), ('_getreader.py', 'pncmfopen')):
         n += check_forelse(ctx, rp, q)
         check_delegate(ctx, rp, q)
+        nsd += check_stack_default(ctx, rp, q)
     for rp, q in (('core/_files.py', 'PseudoNetCDFFile.stack'), ('core/_functions.py', 'stack_files')):
         check_forelse(ctx, rp, q)
     # a prohibition (no for/else whose loop cannot break): it needs no instance - a helper without any for/else satisfies it
     ctx.count('for/else loops in the multi-file helpers', n)
+    ctx.floor('default stack dimension searches', nsd, 1)
     # ---- R-PASSMASK: variables the string forms pass through keep their mask
     from .. import lints as _lp
     ctx.rule('R-PASSMASK', 'variables that an operation passes through unchanged keep their mask: the converter copy does not fill an in-memory masked target')
